@@ -85,6 +85,12 @@ def doc_text(dl_t, g, j, doc, rot):
     raise KeyError(dl_t)
 
 
+# clause kinds of Collect.tla: the lines of the statement in front of the clause header, and the header; every clause body runs at import
+CLAUSE_PRE = {'exc': ['try: raise ValueError("clause")'], 'telse': ['try: pass', 'except Exception: pass'], 'fin': ['try: pass'], 'case': ['match 1:'],
+              'ifelse': ['if False: pass'], 'forelse': ['for _xdv in (): pass'], 'for': []}
+CLAUSE_HEAD = {'exc': 'except ValueError:', 'telse': 'else:', 'fin': 'finally:', 'case': ' case 1:', 'ifelse': 'else:', 'forelse': 'else:', 'for': 'for _xdv in [0]:'}
+
+
 def render(case, rot=0):
     """-> list of file lines"""
     items = case['items']
@@ -133,6 +139,10 @@ def render(case, rot=0):
                 out.append(ind + 'try:')
             elif k == 'with':
                 out.append(ind + 'with contextlib.nullcontext():')
+            elif k in CLAUSE_HEAD:
+                out.append(ind + CLAUSE_HEAD[k])
+        elif t == 'pre':
+            out.append(ind + CLAUSE_PRE[item['k']][a - 1])
         elif t == 'tryend1':
             out.append(ind + 'except Exception:')
         elif t == 'tryend2':
